@@ -13,6 +13,11 @@ use rand::{Rng, SeedableRng};
 use serde_json::{json, Value as J};
 
 pub fn tracegen(prop: &str, seed: u64, runs: usize) -> Vec<J> {
+    tracegen_only(prop, seed, runs, None)
+}
+
+/// `only`: regenerate just this run (for replaying a recorded violation)
+pub fn tracegen_only(prop: &str, seed: u64, runs: usize, only: Option<usize>) -> Vec<J> {
     let mut out = vec![];
     if prop == "fixtures" {
         return crate::digwl::fixture_runs(prop, seed);
@@ -20,6 +25,9 @@ pub fn tracegen(prop: &str, seed: u64, runs: usize) -> Vec<J> {
     let mut top = StdRng::seed_from_u64(seed.wrapping_mul(0x9E37_79B9_7F4A_7C15) ^ prop.bytes().fold(0u64, |a, b| a.wrapping_mul(131).wrapping_add(b as u64)));
     for run in 1..=runs {
         let s: u64 = top.gen();
+        if only.map(|o| o != run).unwrap_or(false) {
+            continue;
+        }
         let lines = match prop {
             "C01" | "C18" => general_run(prop, run, s, Knobs::control_flow(), Opt::default()),
             "C19" => general_run(prop, run, s, Knobs { max_virtuals: 1, ..Knobs::control_flow() }, Opt { layout: Lay::Random, ..Opt::default() }),
@@ -711,7 +719,8 @@ fn sched_run(prop: &str, run: usize, seed: u64) -> Vec<J> {
         return out;
     };
     let table = driver_table(&test);
-    let opt = Opt { layouts: LayoutMode::Subset, mode: ValMode::Small, ..Opt::default() };
+    // drivers of static tests sometimes fail once (the iteration is continued): static = dynamic "whatever the driver returns"
+    let opt = Opt { layouts: LayoutMode::Subset, mode: ValMode::Small, faults: if run % 2 == 0 { FaultMode::ErrorsOnly(0.5) } else { FaultMode::None }, ..Opt::default() };
     // four drivers with different answers; two or three iterators run interleaved, the rest afterwards (re-iteration)
     let mut drivers: Vec<DrvW> = vec![];
     let mut logs = vec![];
@@ -750,6 +759,7 @@ fn sched_run(prop: &str, run: usize, seed: u64) -> Vec<J> {
         its.push(it);
     }
     // the interleaving
+    let mut nerr = vec![0usize; 4];
     let mut budget = 60;
     while budget > 0 && its.iter().any(|i| i.is_some()) {
         budget -= 1;
@@ -770,11 +780,13 @@ fn sched_run(prop: &str, run: usize, seed: u64) -> Vec<J> {
                 json!({"k":"none"})
             }
             Ok(Some(Err(IterationError::Driver(DrvErr(id))))) => {
-                stop = true;
+                nerr[k] += 1;
+                stop = nerr[k] >= 2;
                 json!({"k":"err","class":"driver","id":id})
             }
             Ok(Some(Err(IterationError::Runtime(_)))) => {
-                stop = true;
+                nerr[k] += 1;
+                stop = nerr[k] >= 2;
                 json!({"k":"err","class":"runtime","id":0})
             }
             Ok(Some(Ok(row))) => row_to_spec(row),
